@@ -91,6 +91,29 @@ Proof.
     intros j je [<-|Hj] Hp; [apply E2; exact Hp|apply (R2 j je Hj Hp)].
 Qed.
 
+Lemma eval_inputs_unready e : forall l idx s mri d s' mri' d',
+  eval_inputs g e l idx s mri d = (s', mri', d') ->
+  ready s' e = false ->
+  ready s e = false \/ exists i ie, In i l /\ g_producer g i = Some ie /\ ready s ie = false.
+Proof.
+  induction l as [|i l IH]; intros idx s mri d s' mri' d' H Hr; cbn [eval_inputs] in H.
+  - inversion H; subst. left; exact Hr.
+  - set (s1 := match g_producer g i with
+               | Some ie => if es_ready (st_edge s ie) then s else set_ready s e false
+               | None => s end) in *.
+    assert (Hs1 : ready s1 e = false \/ exists j je, In j l /\ g_producer g j = Some je /\ ready s1 je = false).
+    { destruct (is_order_only _ _ _); [eapply IH; eassumption|].
+      destruct (ns_dirty (st_node s1 i)); eapply IH; eassumption. }
+    assert (E : s1 = s \/ exists ie, g_producer g i = Some ie /\ ready s ie = false).
+    { subst s1. destruct (g_producer g i) as [ie|]; [|left; reflexivity].
+      destruct (es_ready (st_edge s ie)) eqn:Hie; [left; reflexivity|].
+      right. exists ie. split; [reflexivity|exact Hie]. }
+    destruct E as [E|[ie [Hp Hie]]].
+    + rewrite E in Hs1. destruct Hs1 as [Hs1|[j [je [Hj [Hpj Hrj]]]]]; [left; exact Hs1|].
+      right. exists j, je. split; [right; exact Hj|]. split; assumption.
+    + right. exists i, ie. split; [left; reflexivity|]. split; assumption.
+Qed.
+
 Lemma finish_edge_ready e s d :
   ready (finish_edge g s e d) e =
   if d && negb (ei_phony (g_edge g e) && is_nil (ins_of s e)) then false else ready s e.
@@ -139,7 +162,10 @@ Definition RIat (s : sstate) (e : edge) : Prop :=
   (forall i e', In i (ei_ins (g_edge g e)) -> g_producer g i = Some e' ->
                 ready s e' = false -> ready s e = false) /\
   (forall o, In o (ei_outs (g_edge g e)) -> ns_dirty (nd s o) = true ->
-             (ei_phony (g_edge g e) = true /\ ei_ins (g_edge g e) = []) \/ ready s e = false).
+             (ei_phony (g_edge g e) = true /\ ei_ins (g_edge g e) = []) \/ ready s e = false) /\
+  (ready s e = false ->
+   (exists o, In o (ei_outs (g_edge g e)) /\ ns_dirty (nd s o) = true) \/
+   (exists i e', In i (ei_ins (g_edge g e)) /\ g_producer g i = Some e' /\ ready s e' = false)).
 
 Definition RI (s : sstate) : Prop := forall e, mark_of s e = VisitDone -> RIat s e.
 
@@ -149,12 +175,17 @@ Lemma RI_keep a b e :
   (forall n, node_final g a n -> node_final g b n /\ nd b n = nd a n) ->
   RIat b e.
 Proof.
-  intros HR He H1 H2. destruct (HR e He) as [A [B [C D]]].
-  split; [rewrite (H1 e He); exact A|]. split; [intros i Hi; apply (H2 i (B i Hi))|]. split.
-  - intros i e' Hi Hp Hr. pose proof (B i Hi) as Hf. unfold node_final in Hf. rewrite Hp in Hf.
-    rewrite (H1 e' Hf) in Hr. rewrite (H1 e He). apply (C i e' Hi Hp Hr).
-  - intros o Ho Hd. assert (Hf : node_final g a o) by (unfold node_final; rewrite (out_prod e o Ho); exact He).
-    rewrite (proj2 (H2 o Hf)) in Hd. rewrite (H1 e He). apply (D o Ho Hd).
+  intros HR He H1 H2. destruct (HR e He) as [A [B [C [D E]]]].
+  assert (Hfo : forall o, In o (ei_outs (g_edge g e)) -> node_final g a o).
+  { intros o Ho. unfold node_final. rewrite (out_prod e o Ho). exact He. }
+  assert (Hfi : forall i e', In i (ei_ins (g_edge g e)) -> g_producer g i = Some e' -> st_edge b e' = st_edge a e').
+  { intros i e' Hi Hp. pose proof (B i Hi) as Hf. unfold node_final in Hf. rewrite Hp in Hf. apply (H1 e' Hf). }
+  split; [rewrite (H1 e He); exact A|]. split; [intros i Hi; apply (H2 i (B i Hi))|]. split; [|split].
+  - intros i e' Hi Hp Hr. rewrite (Hfi i e' Hi Hp) in Hr. rewrite (H1 e He). apply (C i e' Hi Hp Hr).
+  - intros o Ho Hd. rewrite (proj2 (H2 o (Hfo o Ho))) in Hd. rewrite (H1 e He). apply (D o Ho Hd).
+  - rewrite (H1 e He). intros Hr. destruct (E Hr) as [[o [Ho Hd]]|[i [e' [Hi [Hp Hr']]]]].
+    + left. exists o. split; [exact Ho|]. rewrite (proj2 (H2 o (Hfo o Ho))). exact Hd.
+    + right. exists i, e'. split; [exact Hi|]. split; [exact Hp|]. rewrite (Hfi i e' Hi Hp). exact Hr'.
 Qed.
 
 Lemma RI_vrel a b e : RI a -> vrel g a b -> mark_of a e = VisitDone -> RIat b e.
@@ -268,7 +299,7 @@ Proof.
     - assert (Hne : ie <> e) by (intros ->; congruence). rewrite (proj1 L39 ie Hne). exact Hf.
     - assert (Hno : ~ In i (edge_outs g e)) by (intros Hin; rewrite (out_prod e i Hin) in Hpi; discriminate).
       rewrite (proj2 L39 i Hno). exact Hf. }
-  split; [exact I9'|]. split; [exact F9|]. split.
+  split; [exact I9'|]. split; [exact F9|]. split; [|split].
   - intros i ie Hi Hpi Hr. destruct (ready s9 e) eqn:Hr9; [exfalso|reflexivity].
     pose proof (F3 i Hi) as Hf. unfold node_final in Hf. rewrite Hpi in Hf.
     assert (Hne : ie <> e) by (intros ->; congruence).
@@ -286,6 +317,18 @@ Proof.
     + exfalso. rewrite (N9f eq_refl o), X5, (proj2 N45 o), N34 in Hd.
       assert (Hs : settled g s2 o) by (unfold settled; rewrite (out_prod e o Ho), M2; discriminate).
       rewrite (proj2 V23 o Hs) in Hd. destruct (T2 o Ho) as [_ [_ Hdf]]. congruence.
+  - intros Hr9. unfold s9 in Hr9. rewrite finish_edge_ready in Hr9.
+    destruct (dirty1 && negb (ei_phony (g_edge g e) && is_nil (ins_of sX e)))%bool eqn:Hcond.
+    + left. exists n. split; [apply prod_out; exact Hp|].
+      apply andb_true_iff in Hcond. destruct Hcond as [Hd1 _]. apply (N9t Hd1 n). apply prod_out; exact Hp.
+    + right. rewrite X4, E45 in Hr9.
+      destruct (eval_inputs_unready e _ _ _ _ _ _ _ _ Hev Hr9) as [Hr3|[i [ie [Hi [Hpi Hri]]]]].
+      * exfalso. rewrite E23 in Hr3. unfold s2 in Hr3. rewrite st_edge_stat_outputs in Hr3.
+        unfold enter_edge in Hr3. rewrite upd_edge_same in Hr3. cbn [es_ready] in Hr3. discriminate.
+      * exists i, ie. split; [exact Hi|]. split; [exact Hpi|].
+        pose proof (F3 i Hi) as Hf. unfold node_final in Hf. rewrite Hpi in Hf.
+        assert (Hne : ie <> e) by (intros ->; congruence).
+        rewrite (proj1 L39 ie Hne). exact Hri.
 Qed.
 
 (* no validations: the list of validation nodes stays as it is *)
@@ -330,6 +373,48 @@ Proof.
     split; [exact HS'|]. split; [exact HR'|]. split; [apply (vrel_trans g s s1 s' V1 V')|].
     split; [|exact Hvs].
     intros m [<-|Hm]; [apply (proj1 (final_vrel g s1 s' n V' F1))|apply F'; exact Hm].
+Qed.
+
+(* no depfile, no deps log: the scan never stops with a load error *)
+Lemma rnd_no_loaderr : forall f stack n s vs e',
+  rnd f stack n (s, vs) = SLoadErr e' -> SInv g w s -> False.
+Proof.
+  induction f as [|f IH]; intros stack n s vs e' H HS; [discriminate|].
+  destruct (g_producer g n) as [e|] eqn:Hp.
+  2:{ cbn [recompute_node_dirty] in H. rewrite Hp in H. destruct (n_known (st_node s n)); discriminate. }
+  destruct (mark_of s e) eqn:Hm.
+  2:{ cbn [recompute_node_dirty] in H. rewrite Hp, Hm in H. discriminate. }
+  2:{ cbn [recompute_node_dirty] in H. rewrite Hp, Hm in H. discriminate. }
+  destruct (frag_edge e (Hwg n e Hp)) as [Hdeps _].
+  rewrite (rnd_none_unfold g w f stack n e s vs Hp Hm) in H.
+  destruct HS as [S1 [S2 [S3 S4]]]. destruct (S3 e Hm) as [Hdl Hins]. rewrite Hdl in H.
+  destruct (s2_props g w e s) as [A2 [M2 I2]].
+  set (s2 := stat_outputs w (enter_edge s e) (edge_outs g e)) in *.
+  assert (LS2 : lstep g e s s2).
+  { split; [exact A2|]. intros n' Hn'. subst s2. rewrite stat_outputs_other by exact Hn'. reflexivity. }
+  assert (HS2 : SInv g w s2).
+  { apply (SInv_lstep g w Hwf e s s2 (conj S1 (conj S2 (conj S3 S4))) LS2); [rewrite Hm; discriminate|exact M2]. }
+  destruct (visit_all (rnd f (stack ++ [n])) (ins_of s2 e) (s2, vs ++ ei_vals (g_edge g e)))
+    as [[s3 vs3]|c|e1|] eqn:V1; try discriminate.
+  - rewrite (after_inputs_AB _ e _ _ s3 vs3 Hdeps) in H.
+    destruct (eval_inputs g e (ins_of s3 e) 0 s3 None false) as [[s4 mri] dirty].
+    destruct (if dirty then (true, s4) else outputs_dirty_all g w e (edge_outs g e) mri s4) as [d1 s5].
+    discriminate.
+  - destruct (visit_all_err (fun a : sv => SInv g w (fst a)) (rnd f (stack ++ [n])) (ins_of s2 e)
+                            (s2, vs ++ ei_vals (g_edge g e)) (SLoadErr e1))
+      as [i [[sa va] [_ [Pa Hv]]]]; [|exact HS2|exact V1|exact I|].
+    + intros i [sa va] [sb vb] _ Pa Hv. cbn [fst] in *. apply (rnd_spec g w Hwf _ _ _ _ _ _ _ Hv Pa).
+    + cbn [fst] in Pa. apply (IH _ _ _ _ _ Hv Pa).
+Qed.
+
+Lemma loop_no_loaderr : forall qf queue s found e,
+  recompute_dirty_loop g w qf queue s found = SLoadErr e -> SInv g w s -> False.
+Proof.
+  induction qf as [|qf IH]; intros queue s found e H HS; destruct queue as [|n queue];
+    cbn [recompute_dirty_loop] in H; try discriminate.
+  destruct (rnd (scan_fuel g) [] n (s, [])) as [[s1 newv]|c|e1|] eqn:Hv; try discriminate.
+  - apply (IH _ _ _ _ H). apply (rnd_spec g w Hwf _ _ _ _ _ _ _ Hv HS).
+  - apply (rnd_no_loaderr _ _ _ _ _ _ Hv HS).
 Qed.
 
 (* ---- Plan::AddSubTarget *)
@@ -509,6 +594,36 @@ Qed.
 
 Definition noX : edge -> Prop := fun _ => False.
 
+Lemma bat_GI s p t s1 p1 :
+  In t T -> builder_add_target g w s p t = ScanOk s1 p1 ->
+  SInv g w s -> RI s -> PI s noX p ->
+  SInv g w s1 /\ RI s1 /\ vrel g s s1 /\ node_final g s1 t /\
+  PI s1 noX p1 /\ ple p p1 /\ post s1 t p1.
+Proof.
+  intros Ht Hb HS HR HP. unfold builder_add_target in Hb.
+  destruct (recompute_dirty g w s t) as [[s1' vn]|c|e|] eqn:Hrd; try discriminate.
+  unfold recompute_dirty in Hrd.
+  destruct (loop_all _ _ _ _ _ _ Hrd HS HR) as [HS1 [HR1 [V1 [F1 Hvn]]]]. subst vn.
+  specialize (F1 t (or_introl eq_refl)).
+  pose proof (PI_vrel s s1' noX p HR V1 HP) as HP1.
+  assert (Rt : reach g T t) by (apply reach_target; exact Ht).
+  destruct (match g_producer g t with Some e => negb (es_ready (st_edge s1' e)) | None => true end) eqn:Hneed.
+  - unfold plan_add_target in Hb.
+    destruct (add_sub_target g (plan_fuel g) s1' None t p) as [[[b err] pa]|] eqn:Ha; [|discriminate].
+    assert (Hres : (b = true \/ err = None) /\ s1 = s1' /\ p1 = pa).
+    { destruct b; [cbn [add_validation_targets] in Hb; inversion Hb; subst; split; [left; reflexivity|split; reflexivity]|].
+      destruct err as [[m d]|]; [discriminate|]. inversion Hb; subst. split; [right; reflexivity|split; reflexivity]. }
+    destruct Hres as [Hok [-> ->]].
+    destruct (ast_PI s1' HR1 _ _ _ _ _ _ _ _ Ha Hok Rt F1 HP1) as [HPa [La Pa]].
+    split; [exact HS1|]. split; [exact HR1|]. split; [exact V1|]. split; [exact F1|].
+    split; [exact HPa|]. split; [exact La|exact Pa].
+  - cbn [add_validation_targets] in Hb. inversion Hb; subst s1' p1.
+    split; [exact HS1|]. split; [exact HR1|]. split; [exact V1|]. split; [exact F1|].
+    split; [exact HP1|]. split; [apply ple_refl|].
+    unfold post. destruct (g_producer g t) as [e|]; [|discriminate].
+    apply negb_false_iff in Hneed. intros Hr. congruence.
+Qed.
+
 Lemma add_targets_GI : forall rest s p s' p' (Dn : node -> Prop),
   incl rest T ->
   add_targets g w s p rest = ScanOk s' p' ->
@@ -521,31 +636,8 @@ Proof.
   - inversion H; subst. split; [exact HS|]. split; [exact HR|]. split; [exact HP|].
     intros t [Ht|[]]. apply HD; exact Ht.
   - destruct (builder_add_target g w s p t) as [c|m d|e| |s1 p1] eqn:Hb; try discriminate.
-    assert (Step : SInv g w s1 /\ RI s1 /\ vrel g s s1 /\ node_final g s1 t /\
-                   PI s1 noX p1 /\ ple p p1 /\ post s1 t p1).
-    { unfold builder_add_target in Hb.
-      destruct (recompute_dirty g w s t) as [[s1' vn]|c|e|] eqn:Hrd; try discriminate.
-      unfold recompute_dirty in Hrd.
-      destruct (loop_all _ _ _ _ _ _ Hrd HS HR) as [HS1 [HR1 [V1 [F1 Hvn]]]]. subst vn.
-      specialize (F1 t (or_introl eq_refl)).
-      pose proof (PI_vrel s s1' noX p HR V1 HP) as HP1.
-      assert (Rt : reach g T t) by (apply reach_target; apply Hinc; left; reflexivity).
-      destruct (match g_producer g t with Some e => negb (es_ready (st_edge s1' e)) | None => true end) eqn:Hneed.
-      - unfold plan_add_target in Hb.
-        destruct (add_sub_target g (plan_fuel g) s1' None t p) as [[[b err] pa]|] eqn:Ha; [|discriminate].
-        assert (Hres : (b = true \/ err = None) /\ s1 = s1' /\ p1 = pa).
-        { destruct b; [cbn [add_validation_targets] in Hb; inversion Hb; subst; split; [left; reflexivity|split; reflexivity]|].
-          destruct err as [[m d]|]; [discriminate|]. inversion Hb; subst. split; [right; reflexivity|split; reflexivity]. }
-        destruct Hres as [Hok [-> ->]].
-        destruct (ast_PI s1' HR1 _ _ _ _ _ _ _ _ Ha Hok Rt F1 HP1) as [HPa [La Pa]].
-        split; [exact HS1|]. split; [exact HR1|]. split; [exact V1|]. split; [exact F1|].
-        split; [exact HPa|]. split; [exact La|exact Pa].
-      - cbn [add_validation_targets] in Hb. inversion Hb; subst s1' p1.
-        split; [exact HS1|]. split; [exact HR1|]. split; [exact V1|]. split; [exact F1|].
-        split; [exact HP1|]. split; [apply ple_refl|].
-        unfold post. destruct (g_producer g t) as [e|]; [|discriminate].
-        apply negb_false_iff in Hneed. intros Hr. congruence. }
-    destruct Step as [HS1 [HR1 [V1 [F1 [HP1 [L1 Pt]]]]]].
+    destruct (bat_GI s p t s1 p1 (Hinc t (or_introl eq_refl)) Hb HS HR HP)
+      as [HS1 [HR1 [V1 [F1 [HP1 [L1 Pt]]]]]].
     destruct (IH s1 p1 s' p' (fun x => Dn x \/ x = t) (fun x Hx => Hinc x (or_intror Hx)) H HS1 HR1 HP1)
       as [HS' [HR' [HP' HD']]].
     { intros x [Hx|Hx]; [|subst x; split; assumption].
@@ -631,7 +723,7 @@ Proof.
   assert (Hd : mark_of s e = VisitDone) by (unfold node_final in Fn; rewrite Hp in Fn; exact Fn).
   assert (Hdn : ns_dirty (nd s n) = true).
   { apply (proj1 (S1 n Fn)). apply (must_dirty_same_prod o n e (out_prod e o Ho) Hp Hmd). }
-  destruct (HR e Hd) as [_ [Ifin [_ Idirty]]].
+  destruct (HR e Hd) as [_ [Ifin [_ [Idirty _]]]].
   destruct (Idirty n (prod_out n e Hp) Hdn) as [Hph|Hr]; [contradiction|].
   destruct (Pn e Hp Hr) as [Hw Hts]. split; [apply Hts; exact Hdn|].
   intros i Hi Hpi Hz. pose proof (P3 e Hw (fun F => F) i Hi) as Pi. unfold post in Pi. rewrite Hpi in Pi.
@@ -649,6 +741,106 @@ Proof.
 Qed.
 
 End Accepted.
+
+(* a source that is itself a target was accepted: it exists (or is not a manifest node) *)
+Lemma scan_leaf_targets s p : scan g w T = ScanOk s p ->
+  forall t, In t T -> g_producer g t = None -> w_mtime w t <> 0%Z \/ g_byloader g t = true.
+Proof.
+  intros Hs t Ht Hp. destruct (accepted_facts s p Hs) as [[S1 _] [_ [_ HT]]].
+  destruct (HT t Ht) as [Ft Pt]. unfold post in Pt. rewrite Hp in Pt.
+  destruct (Z.eq_dec (w_mtime w t) 0) as [Hz|Hnz]; [|left; exact Hnz]. right.
+  assert (Hd : ns_dirty (nd s t) = true) by (apply (proj1 (S1 t Ft)); apply md_leaf; assumption).
+  rewrite Hd in Pt. cbn [andb] in Pt. apply negb_false_iff in Pt. exact Pt.
+Qed.
+
+(* ---- acceptance: when nothing the targets need must be remade, the scan is accepted *)
+Lemma topo_acyclic : topo_ordered g = true -> acyclic g w.
+Proof.
+  intros Ht c Hc. set (ins' := fun e => if Nat.ltb e (g_nedges g) then pot_ins g w e else []).
+  assert (Hrk : ranked_via g ins' (fun e => e)).
+  { intros e i e' Hi Hp. unfold ins' in Hi. destruct (Nat.ltb_spec e (g_nedges g)) as [He|He]; [|destruct Hi].
+    unfold pot_ins, recorded_deps in Hi. rewrite (proj1 (frag_edge e He)), app_nil_r in Hi.
+    pose proof (edges_all_spec g _ e Ht He) as H. cbn beta in H. rewrite forallb_forall in H.
+    specialize (H i Hi). rewrite Hp in H. apply Nat.ltb_lt. exact H. }
+  apply (ranked_acyclic g ins' _ Hrk c). destruct Hc as [Hw [Hlen Hhd]]. split; [|split; assumption].
+  clear Hlen Hhd. induction Hw as [x|x y l Hs Hw IH]; [apply walk_one|].
+  apply walk_cons; [|exact IH]. destruct Hs as [e [He Hin]]. exists e. split; [exact He|].
+  unfold ins'. rewrite (proj2 (Nat.ltb_lt _ _) (Hwg x e He)). exact Hin.
+Qed.
+
+Section Accepts.
+Hypothesis Htopo : topo_ordered g = true.
+Hypothesis Hleaf : forall t, In t T -> g_producer g t = None -> w_mtime w t <> 0%Z \/ g_byloader g t = true.
+Hypothesis Hclean : forall e, neededE e -> forall o, In o (ei_outs (g_edge g e)) -> ~ must_dirty g w o.
+
+Lemma all_ready s : SInv g w s -> RI s ->
+  forall e, mark_of s e = VisitDone -> neededE e -> ready s e = true.
+Proof.
+  intros [S1 _] HR. induction e as [e IH] using lt_wf_ind. intros Hd Hn.
+  destruct (ready s e) eqn:Hr; [reflexivity|exfalso].
+  destruct (HR e Hd) as [_ [Ifin [_ [_ Iun]]]].
+  destruct (Iun Hr) as [[o [Ho Hdo]]|[i [e' [Hi [Hp Hr']]]]].
+  - apply (Hclean e Hn o Ho). apply (proj1 (S1 o ltac:(unfold node_final; rewrite (out_prod e o Ho); exact Hd))).
+    exact Hdo.
+  - destruct Hn as [n [Rn Hpn]]. pose proof (Hwg n e Hpn) as He.
+    pose proof (edges_all_spec g _ e Htopo He) as H. cbn beta in H. rewrite forallb_forall in H.
+    specialize (H i Hi). rewrite Hp in H. apply Nat.ltb_lt in H.
+    pose proof (Ifin i Hi) as Fi. unfold node_final in Fi. rewrite Hp in Fi.
+    assert (Hn' : neededE e').
+    { exists i. split; [|exact Hp]. apply (reach_step g (manifest_ins g) T n i Rn). exists e. split; assumption. }
+    rewrite (IH e' H Fi Hn') in Hr'. discriminate.
+Qed.
+
+Lemma add_targets_not_missing : forall rest s p m d,
+  incl rest T -> add_targets g w s p rest = ScanMissing m d ->
+  SInv g w s -> RI s -> PI s noX p -> False.
+Proof.
+  induction rest as [|t rest IH]; intros s p m d Hinc H HS HR HP; cbn [add_targets] in H; [discriminate|].
+  assert (Ht : In t T) by (apply Hinc; left; reflexivity).
+  destruct (builder_add_target g w s p t) as [c|m0 d0|e| |s1 p1] eqn:Hb; try discriminate.
+  2:{ destruct (bat_GI s p t s1 p1 Ht Hb HS HR HP) as [HS1 [HR1 [_ [_ [HP1 _]]]]].
+      apply (IH s1 p1 m d (fun x Hx => Hinc x (or_intror Hx)) H HS1 HR1 HP1). }
+  clear H. unfold builder_add_target in Hb.
+  destruct (recompute_dirty g w s t) as [[s1 vn]|c|e|] eqn:Hrd; try discriminate.
+  unfold recompute_dirty in Hrd.
+  destruct (loop_all _ _ _ _ _ _ Hrd HS HR) as [HS1 [HR1 [V1 [F1 Hvn]]]]. subst vn.
+  specialize (F1 t (or_introl eq_refl)).
+  destruct (g_producer g t) as [e|] eqn:Hpt.
+  - (* a produced target: its statement is ready, the plan is not consulted *)
+    unfold node_final in F1. rewrite Hpt in F1.
+    assert (Hn : neededE e) by (exists t; split; [apply reach_target; exact Ht|exact Hpt]).
+    rewrite (all_ready s1 HS1 HR1 e F1 Hn) in Hb. cbn [negb add_validation_targets] in Hb. discriminate.
+  - (* a source target *)
+    unfold plan_add_target, plan_fuel in Hb. replace (g_nedges g + 2)%nat with (S (g_nedges g + 1)) in Hb by lia.
+    cbn [add_sub_target] in Hb. rewrite Hpt in Hb.
+    destruct (ns_dirty (st_node s1 t) && negb (g_byloader g t))%bool eqn:Hd; [|discriminate].
+    apply andb_true_iff in Hd. destruct Hd as [Hd Hbl]. apply negb_true_iff in Hbl.
+    destruct HS1 as [S1 _]. apply (proj1 (S1 t F1)) in Hd. pose proof (must_dirty_leaf_inv g w t Hd Hpt) as Hz.
+    destruct (Hleaf t Ht Hpt) as [Hnz|Hb']; [contradiction|congruence].
+Qed.
+
+Lemma add_targets_no_loaderr : forall rest s p e,
+  add_targets g w s p rest = ScanLoadErr e -> SInv g w s -> False.
+Proof.
+  induction rest as [|t rest IH]; intros s p e H HS; cbn [add_targets] in H; [discriminate|].
+  pose proof (bat_result g w s p t) as Hb.
+  destruct (builder_add_target g w s p t) as [c|m0 d0|e0| |s1 p1]; try discriminate.
+  - unfold recompute_dirty in Hb. apply (loop_no_loaderr _ _ _ _ _ Hb HS).
+  - destruct Hb as [vn Hb]. apply (IH _ _ _ H). unfold recompute_dirty in Hb. apply (loop_spec g w Hwf _ _ _ _ _ _ Hb HS).
+Qed.
+
+Theorem scan_accepts : exists s p, scan g w T = ScanOk s p.
+Proof.
+  destruct (scan g w T) as [c|m d|e| |s p] eqn:H.
+  - exfalso. apply (C17_no_false_positive g w T (topo_acyclic Htopo) c H).
+  - exfalso. apply (add_targets_not_missing T (init_state g) init_plan m d (incl_refl T) H
+                      (SInv_init g w) RI_init PI_init).
+  - exfalso. apply (add_targets_no_loaderr T (init_state g) init_plan e H (SInv_init g w)).
+  - exfalso. apply (scan_fuel_sufficient g w Hwg T H).
+  - exists s, p. reflexivity.
+Qed.
+
+End Accepts.
 End Plan.
 End ScanFacts.
 
@@ -869,6 +1061,819 @@ Proof.
     + intros o Ho. rewrite (proj2 (mem_node_In o _) Ho). split; [reflexivity|]. split; [reflexivity|].
       apply F; exact Ho.
   - intros Hr o Ho. destruct (K Hr o Ho) as [mo [Em Hm]]. exists mo. split; [exact Em|lia].
+Qed.
+
+(* ---- StateOk is kept *)
+Lemma stateok_init : StateOk g (init_hstate g).
+Proof.
+  unfold StateOk, init_hstate. cbn [h_clock h_disk h_blog].
+  split; [lia|]. split; [discriminate|]. split; [discriminate|]. split; [reflexivity|].
+  intros n e _ _ H. contradiction.
+Qed.
+
+Lemma stateok_edit st n c : StateOk g st -> is_source g n = true -> StateOk g (write_file st n c).
+Proof.
+  intros [A [B [C [D E]]]] Hs. unfold is_source in Hs.
+  destruct (g_producer g n) eqn:Hp; [discriminate|].
+  unfold StateOk, write_file. cbn [h_clock h_disk h_blog].
+  split; [lia|]. split; [|split; [|split]].
+  - intros n' m c'. unfold upd. destruct (Nat.eqb n' n).
+    + intros H; inversion H; subst. lia.
+    + intros H. specialize (B n' m c' H). lia.
+  - intros n' h m H. specialize (C n' h m H). lia.
+  - intros n' e He Hph. rewrite upd_other by (intros ->; congruence). apply (D n' e He Hph).
+  - intros n' e He Hph. rewrite upd_other by (intros ->; congruence). apply (E n' e He Hph).
+Qed.
+
+Lemma stateok_delete st n : StateOk g st -> StateOk g (delete_file st n).
+Proof.
+  intros [A [B [C [D E]]]]. unfold StateOk, delete_file. cbn [h_clock h_disk h_blog].
+  split; [exact A|]. split; [|split; [exact C|split]].
+  - intros n' m c'. unfold upd. destruct (Nat.eqb n' n); [discriminate|apply B].
+  - intros n' e He Hph. unfold upd. destruct (Nat.eqb n' n); [reflexivity|apply (D n' e He Hph)].
+  - intros n' e He Hph. unfold upd. destruct (Nat.eqb n' n); [intros H; contradiction|apply (E n' e He Hph)].
+Qed.
+
+Lemma stateok_setcmd st e h : StateOk g st -> StateOk g (set_cmd st e h).
+Proof. intros H. exact H. Qed.
+
+Lemma stateok_run st e :
+  StateOk g st -> phony e = false -> StateOk g (run_edge cmd g st e).
+Proof.
+  intros [A [B [C [D E]]]] Hph.
+  destruct (run_edge_spec st e A B) as [Hh [Hc [Hout [Hfs [Hd [[m [Hm Hlog]] _]]]]]]. cbn zeta in *.
+  set (st' := run_edge cmd g st e) in *.
+  split; [lia|]. split; [exact Hd|]. split; [|split].
+  - intros n h0 m0 Hn. destruct (in_dec Nat.eq_dec n (outs e)) as [Hin|Hnin].
+    + destruct (Hlog n Hin) as [Hb _]. rewrite Hb in Hn. inversion Hn; subst. lia.
+    + destruct (Hout n Hnin) as [_ [Hb _]]. rewrite Hb in Hn. specialize (C n h0 m0 Hn). lia.
+  - intros n e' He' Hph'. assert (Hnin : ~ In n (outs e)).
+    { intros Hin. rewrite (o_prod e n Hin) in He'. inversion He'; subst. congruence. }
+    rewrite (proj1 (Hout n Hnin)). apply (D n e' He' Hph').
+  - intros n e' He' Hph'. destruct (in_dec Nat.eq_dec n (outs e)) as [Hin|Hnin].
+    + destruct (Hlog n Hin) as [Hb _]. rewrite Hb. discriminate.
+    + destruct (Hout n Hnin) as [Hd' [Hb _]]. rewrite Hd', Hb. apply (E n e' He' Hph').
+Qed.
+
+(* ---- LogSound is kept *)
+Theorem logsound_init : LogSound cmd g (init_hstate g).
+Proof. intros e o h m mo c _ _ H. discriminate. Qed.
+
+Theorem logsound_edit st n c :
+  Good cmd g st -> is_source g n = true -> LogSound cmd g (write_file st n c).
+Proof.
+  intros [[A [B [C [D E]]]] L] Hs. unfold is_source in Hs.
+  destruct (g_producer g n) eqn:Hp; [discriminate|].
+  intros e o h m mo c0 Hph Ho Hb Hd. cbn [write_file h_blog h_disk h_ghost] in *.
+  assert (Hne : o <> n) by (intros ->; rewrite (o_prod e n Ho) in Hp; discriminate).
+  rewrite upd_other in Hd by exact Hne.
+  destruct (L e o h m mo c0 Hph Ho Hb Hd) as [S [HS [Hm [Hc Hf]]]].
+  exists S. split; [exact HS|]. split; [exact Hm|]. split; [exact Hc|].
+  intros i ci Hi. destruct (Hf i ci Hi) as [F1 F2]. split; [exact F1|].
+  intros mi c'. cbn [write_file h_disk]. unfold upd. destruct (Nat.eqb i n).
+  - intros H Hle. inversion H; subst. specialize (C o h m Hb). lia.
+  - apply F2.
+Qed.
+
+Theorem logsound_delete st n : Good cmd g st -> LogSound cmd g (delete_file st n).
+Proof.
+  intros [_ L]. intros e o h m mo c0 Hph Ho Hb Hd. cbn [delete_file h_blog h_disk h_ghost] in *.
+  unfold upd in Hd. destruct (Nat.eqb o n); [discriminate|].
+  destruct (L e o h m mo c0 Hph Ho Hb Hd) as [S [HS [Hm [Hc Hf]]]].
+  exists S. split; [exact HS|]. split; [exact Hm|]. split; [exact Hc|].
+  intros i ci Hi. destruct (Hf i ci Hi) as [F1 F2]. split; [exact F1|].
+  intros mi c'. cbn [delete_file h_disk]. unfold upd. destruct (Nat.eqb i n); [discriminate|apply F2].
+Qed.
+
+Theorem logsound_setcmd st e h : Good cmd g st -> LogSound cmd g (set_cmd st e h).
+Proof. intros [_ L]. exact L. Qed.
+
+(* run_edge_establishes + unrelated entries preserved *)
+Theorem logsound_run st e :
+  Good cmd g st -> (e < g_nedges g)%nat -> phony e = false -> LogSound cmd g (run_edge cmd g st e).
+Proof.
+  intros [[A [B [C [D E]]]] L] He Hph.
+  destruct (run_edge_spec st e A B) as [Hh [Hc [Hout [Hfs [Hd [[m [Hm Hlog]] _]]]]]]. cbn zeta in *.
+  set (st' := run_edge cmd g st e) in *.
+  intros e1 o h1 m1 mo c Hph1 Ho Hb Hdo.
+  destruct (in_dec Nat.eq_dec o (outs e)) as [Hin|Hnin].
+  - (* an output of the command that just ran *)
+    assert (e1 = e) by (pose proof (o_prod e1 o Ho) as H1; rewrite (o_prod e o Hin) in H1; congruence). subst e1.
+    destruct (Hlog o Hin) as [Hb' [Hg' [mo' Hd']]]. rewrite Hb' in Hb. inversion Hb; subst h1 m1.
+    rewrite Hd' in Hdo. inversion Hdo; subst mo c.
+    exists (reads g st e). split; [exact Hg'|]. split; [|split; [reflexivity|]].
+    + unfold reads. rewrite map_map. cbn [fst]. apply map_id.
+    + intros i ci Hi. unfold reads in Hi. apply in_map_iff in Hi. destruct Hi as [i' [Hi' Hin']].
+      inversion Hi'; subst i' ci. split.
+      * intros e' He' Hph'. unfold content_of. rewrite (D i e' He' Hph'). reflexivity.
+      * intros mi c' Hdi _.
+        assert (Hni : ~ In i (outs e)).
+        { apply (not_out_of_below e e i); [apply (in_below e i He (nonoo_in e i Hin'))|lia]. }
+        rewrite (proj1 (Hout i Hni)) in Hdi. unfold content_of. rewrite Hdi. reflexivity.
+  - (* an older entry *)
+    destruct (Hout o Hnin) as [Hd1 [Hb1 Hg1]]. rewrite Hb1 in Hb. rewrite Hd1 in Hdo.
+    destruct (L e1 o h1 m1 mo c Hph1 Ho Hb Hdo) as [S [HS [HmS [HcS Hf]]]].
+    exists S. split; [rewrite Hg1; exact HS|]. split; [exact HmS|]. split; [exact HcS|].
+    intros i ci Hi. destruct (Hf i ci Hi) as [F1 F2]. split; [exact F1|].
+    intros mi c' Hdi Hle. destruct (Hfs i) as [Hsame|[mx [Hx [Hmx _]]]].
+    + rewrite Hsame in Hdi. apply (F2 mi c' Hdi Hle).
+    + rewrite Hx in Hdi. inversion Hdi; subst. specialize (C o h1 m1 Hb). lia.
+Qed.
+
+Lemma good_run st e :
+  Good cmd g st -> (e < g_nedges g)%nat -> phony e = false -> Good cmd g (run_edge cmd g st e).
+Proof.
+  intros HG He Hph. split; [apply stateok_run; [exact (proj1 HG)|exact Hph]|apply logsound_run; assumption].
+Qed.
+
+(* ---- the declarative dirty state of the fragment: locality facts *)
+Lemma spec_ins_AB st w e : (e < g_nedges g)%nat -> spec_ins (G st) w e = nonoo_ins g e.
+Proof.
+  intros He. unfold spec_ins, valid_deps, spec_load.
+  change (ei_deps (g_edge (G st) e)) with (ei_deps (g_edge g e)). rewrite (edge_frag e He).
+  apply app_nil_r.
+Qed.
+
+Lemma reach_G st T n : reach (G st) T n <-> reach g T n.
+Proof.
+  unfold reach. split; intros H.
+  - induction H as [t Ht|x y Hx IH Hs]; [apply reach_target; exact Ht|].
+    apply (reach_step g (manifest_ins g) T x y IH). exact Hs.
+  - induction H as [t Ht|x y Hx IH Hs]; [apply reach_target; exact Ht|].
+    apply (reach_step (G st) (manifest_ins (G st)) T x y IH). exact Hs.
+Qed.
+
+Lemma out_reason_transfer st w w' (N N' : Z -> Prop) e o :
+  w_mtime w' o = w_mtime w o -> w_blog w' o = w_blog w o -> (forall x, N x -> N' x) ->
+  out_reason (G st) w N e o -> out_reason (G st) w' N' e o.
+Proof.
+  unfold out_reason, base_reason, time_reason, used_restat. intros Hm Hb HN. rewrite Hm, Hb.
+  intros [Hbase|[[Hu Hn]|Ht]].
+  - left; exact Hbase.
+  - right; left. split; [exact Hu|apply HN; exact Hn].
+  - right; right. destruct (w_blog w o) as [[h m]|]; [apply HN; exact Ht|exact Ht].
+Qed.
+
+Definition agree_below (k : nat) (w w' : world) : Prop :=
+  forall n, below k n -> w_mtime w' n = w_mtime w n /\ w_blog w' n = w_blog w n.
+
+Lemma below_input k n e i :
+  (k <= g_nedges g)%nat -> below k n -> g_producer g n = Some e -> In i (nonoo_ins g e) -> below k i.
+Proof.
+  intros Hk Hb Hp Hi. unfold below in Hb. rewrite Hp in Hb.
+  apply (below_mono e k i); [lia|]. apply in_below; [lia|apply nonoo_in; exact Hi].
+Qed.
+
+Lemma newer_below st k w w' : (k <= g_nedges g)%nat -> agree_below k w w' ->
+  forall x n, newer_than (G st) w x n -> below k n -> newer_than (G st) w' x n.
+Proof.
+  intros Hk Ha x n H. induction H as [n Hnz Hlt|n Hz Hlt|n e i Hz Hp Hph Hi Hn IH]; intros Hb.
+  - destruct (Ha n Hb) as [Hm _]. apply nt_file; rewrite Hm; assumption.
+  - apply nt_missing; [rewrite (proj1 (Ha n Hb))|]; assumption.
+  - apply (nt_phony (G st) w' x n e i); [rewrite (proj1 (Ha n Hb)); exact Hz|exact Hp|exact Hph|exact Hi|].
+    apply IH. apply (below_input k n e i Hk Hb Hp Hi).
+Qed.
+
+Lemma md_below st k w w' : (k <= g_nedges g)%nat -> agree_below k w w' ->
+  forall n, must_dirty (G st) w n -> below k n -> must_dirty (G st) w' n.
+Proof.
+  intros Hk Ha n H.
+  induction H as [n Hp Hz|n e i Hp Hi Hd IH|n e o Hp Hph Hin Hv Ho Hz|n e o Hp Hph Ho Hr|n e Hp Hl]; intros Hb.
+  - apply md_leaf; [exact Hp|]. rewrite (proj1 (Ha n Hb)). exact Hz.
+  - assert (He : (e < g_nedges g)%nat) by (apply (Hwg n e Hp)).
+    rewrite (spec_ins_AB st w e He) in Hi.
+    apply (md_input (G st) w' n e i Hp); [rewrite (spec_ins_AB st w' e He); exact Hi|].
+    apply IH. apply (below_input k n e i Hk Hb Hp Hi).
+  - assert (Hbo : below k o) by (unfold below in *; rewrite (o_prod e o Ho); change (g_producer g n = Some e) in Hp; rewrite Hp in Hb; exact Hb).
+    apply (md_phony (G st) w' n e o Hp Hph Hin Hv Ho). rewrite (proj1 (Ha o Hbo)). exact Hz.
+  - assert (He : (e < g_nedges g)%nat) by (apply (Hwg n e Hp)).
+    assert (Hbo : below k o) by (unfold below in *; rewrite (o_prod e o Ho); change (g_producer g n = Some e) in Hp; rewrite Hp in Hb; exact Hb).
+    apply (md_self (G st) w' n e o Hp Hph Ho).
+    destruct (Ha o Hbo) as [Hm Hbl].
+    apply (out_reason_transfer st w w'
+             (fun x => exists i, In i (spec_ins (G st) w e) /\ newer_than (G st) w x i)
+             (fun x => exists i, In i (spec_ins (G st) w' e) /\ newer_than (G st) w' x i) e o Hm Hbl); [|exact Hr].
+    intros x [i [Hi Hn]]. rewrite (spec_ins_AB st w e He) in Hi. exists i.
+    split; [rewrite (spec_ins_AB st w' e He); exact Hi|].
+    apply (newer_below st k w w' Hk Ha x i Hn). apply (below_input k n e i Hk Hb Hp Hi).
+  - exfalso. unfold spec_load in Hl. change (ei_deps (g_edge (G st) e)) with (ei_deps (g_edge g e)) in Hl.
+    rewrite (edge_frag e (Hwg n e Hp)) in Hl. discriminate.
+Qed.
+
+Lemma newer_bound st k w B : (k <= g_nedges g)%nat -> 0 <= B ->
+  (forall n, below k n -> w_mtime w n <= B) ->
+  forall x n, newer_than (G st) w x n -> below k n -> x < B.
+Proof.
+  intros Hk HB Hall x n H. induction H as [n Hnz Hlt|n Hz Hlt|n e i Hz Hp Hph Hi Hn IH]; intros Hb.
+  - specialize (Hall n Hb). lia.
+  - lia.
+  - apply IH. apply (below_input k n e i Hk Hb Hp Hi).
+Qed.
+
+(* nothing that was clean in [w0] has been touched *)
+Definition agree_clean st (w0 w : world) : Prop :=
+  forall n, ~ must_dirty (G st) w0 n -> w_mtime w n = w_mtime w0 n /\ w_blog w n = w_blog w0 n.
+
+Lemma clean_input st w0 n e i :
+  g_producer g n = Some e -> In i (nonoo_ins g e) ->
+  ~ must_dirty (G st) w0 n -> ~ must_dirty (G st) w0 i.
+Proof.
+  intros Hp Hi Hn Hd. apply Hn. apply (md_input (G st) w0 n e i Hp); [|exact Hd].
+  rewrite (spec_ins_AB st w0 e (Hwg n e Hp)). exact Hi.
+Qed.
+
+Lemma newer_clean st w0 w : agree_clean st w0 w ->
+  forall x n, newer_than (G st) w x n -> ~ must_dirty (G st) w0 n -> newer_than (G st) w0 x n.
+Proof.
+  intros Ha x n H. induction H as [n Hnz Hlt|n Hz Hlt|n e i Hz Hp Hph Hi Hn IH]; intros Hc.
+  - destruct (Ha n Hc) as [Hm _]. rewrite Hm in *. apply nt_file; assumption.
+  - destruct (Ha n Hc) as [Hm _]. rewrite Hm in *. apply nt_missing; assumption.
+  - destruct (Ha n Hc) as [Hm _]. rewrite Hm in *.
+    apply (nt_phony (G st) w0 x n e i Hz Hp Hph Hi). apply IH. apply (clean_input st w0 n e i Hp Hi Hc).
+Qed.
+
+Lemma clean_stable st w0 w : agree_clean st w0 w ->
+  forall n, must_dirty (G st) w n -> ~ must_dirty (G st) w0 n -> False.
+Proof.
+  intros Ha n H.
+  induction H as [n Hp Hz|n e i Hp Hi Hd IH|n e o Hp Hph Hin Hv Ho Hz|n e o Hp Hph Ho Hr|n e Hp Hl]; intros Hc.
+  - apply Hc. apply md_leaf; [exact Hp|]. rewrite <- (proj1 (Ha n Hc)). exact Hz.
+  - rewrite (spec_ins_AB st w e (Hwg n e Hp)) in Hi. apply IH. apply (clean_input st w0 n e i Hp Hi Hc).
+  - assert (Hco : ~ must_dirty (G st) w0 o).
+    { intros Hd. apply Hc. apply (must_dirty_same_prod (G st) w0 o n e (o_prod e o Ho) Hp Hd). }
+    apply Hc. apply (md_phony (G st) w0 n e o Hp Hph Hin Hv Ho). rewrite <- (proj1 (Ha o Hco)). exact Hz.
+  - assert (He : (e < g_nedges g)%nat) by (apply (Hwg n e Hp)).
+    assert (Hco : ~ must_dirty (G st) w0 o).
+    { intros Hd. apply Hc. apply (must_dirty_same_prod (G st) w0 o n e (o_prod e o Ho) Hp Hd). }
+    apply Hc. apply (md_self (G st) w0 n e o Hp Hph Ho).
+    destruct (Ha o Hco) as [Hm Hbl].
+    apply (out_reason_transfer st w w0
+             (fun x => exists i, In i (spec_ins (G st) w e) /\ newer_than (G st) w x i)
+             (fun x => exists i, In i (spec_ins (G st) w0 e) /\ newer_than (G st) w0 x i) e o
+             (eq_sym Hm) (eq_sym Hbl)); [|exact Hr].
+    intros x [i [Hi Hn]]. rewrite (spec_ins_AB st w e He) in Hi. exists i.
+    split; [rewrite (spec_ins_AB st w0 e He); exact Hi|].
+    apply (newer_clean st w0 w Ha x i Hn). apply (clean_input st w0 n e i Hp Hi Hc).
+  - unfold spec_load in Hl. change (ei_deps (g_edge (G st) e)) with (ei_deps (g_edge g e)) in Hl.
+    rewrite (edge_frag e (Hwg n e Hp)) in Hl. discriminate.
+Qed.
+
+(* ---- ScanDefs' test on the current world *)
+Lemma dirty_now_spec st e :
+  dirty_now g st e = false -> forall o, In o (outs e) -> ~ must_dirty (G st) (W st) o.
+Proof.
+  unfold dirty_now. intros H o Ho Hmd.
+  destruct (scan (G st) (W st) (outs e)) as [c|m d|e'| |s p] eqn:Hs; try discriminate.
+  assert (Hr : reach (G st) (outs e) o) by (apply reach_target; exact Ho).
+  pose proof (scan_reach_ok (G st) (W st) (Gwf st) (Gwg st) (Gfrag st) (outs e) s p Hs o Hr) as [Hok _].
+  apply Hok in Hmd.
+  assert (Hex : existsb (fun o0 => ns_dirty (st_node s o0)) (outs e) = true).
+  { apply existsb_exists. exists o. split; assumption. }
+  congruence.
+Qed.
+
+(* ---- the reference build *)
+Notation cbf := (cb cmd g).
+
+Lemma cb_S hs src k n : cbf hs src (S k) n =
+  match g_producer g n with
+  | Some e =>
+    if Nat.eqb e k
+    then if phony k then None
+         else Some (cmd k (hs k) (map (fun i => (i, cbf hs src k i)) (nonoo_ins g k)) n)
+    else cbf hs src k n
+  | None => cbf hs src k n
+  end.
+Proof. reflexivity. Qed.
+
+Lemma cb_leaf hs src k n : g_producer g n = None -> cbf hs src k n = src n.
+Proof.
+  intros Hp. induction k as [|k IH]; [cbn [cb]; rewrite Hp; reflexivity|].
+  rewrite cb_S, Hp. exact IH.
+Qed.
+
+Lemma cb_below hs src k n : below k n -> forall k', (k <= k')%nat -> cbf hs src k' n = cbf hs src k n.
+Proof.
+  intros Hb k' Hle. induction Hle as [|k' Hle IH]; [reflexivity|].
+  rewrite cb_S. unfold below in Hb. destruct (g_producer g n) as [e|]; [|exact IH].
+  destruct (Nat.eqb_spec e k'); [lia|exact IH].
+Qed.
+
+Lemma cb_ext hs src src' : (forall n, src n = src' n) -> forall k n, cbf hs src k n = cbf hs src' k n.
+Proof.
+  intros Hs. induction k as [|k IH]; intros n.
+  - cbn [cb]. destruct (g_producer g n); [reflexivity|apply Hs].
+  - rewrite !cb_S. destruct (g_producer g n) as [e|]; [|apply IH].
+    destruct (Nat.eqb e k); [|apply IH]. destruct (phony k); [reflexivity|].
+    f_equal. f_equal. apply map_ext. intros i. rewrite IH. reflexivity.
+Qed.
+
+Lemma clean_build_out hs src e o : (e < g_nedges g)%nat -> g_producer g o = Some e ->
+  clean_build cmd g hs src o =
+  if phony e then None
+  else Some (cmd e (hs e) (map (fun i => (i, clean_build cmd g hs src i)) (nonoo_ins g e)) o).
+Proof.
+  intros He Hp. unfold clean_build.
+  rewrite (cb_below hs src (S e) o) by (unfold below; try rewrite Hp; lia).
+  rewrite cb_S, Hp, Nat.eqb_refl. destruct (phony e); [reflexivity|].
+  f_equal. f_equal. apply map_ext_in. intros i Hi. f_equal. symmetry.
+  apply cb_below; [|lia]. apply in_below; [exact He|apply nonoo_in; exact Hi].
+Qed.
+
+Lemma clean_of_leaf st n : g_producer g n = None -> clean_of cmd g st n = content_of st n.
+Proof.
+  intros Hp. unfold clean_of, clean_build. rewrite (cb_leaf _ _ _ n Hp). unfold sources_of. rewrite Hp. reflexivity.
+Qed.
+
+Lemma clean_of_ext st st' :
+  h_hash st' = h_hash st -> (forall n, g_producer g n = None -> content_of st' n = content_of st n) ->
+  forall n, clean_of cmd g st' n = clean_of cmd g st n.
+Proof.
+  intros Hh Hs n. unfold clean_of, clean_build. rewrite Hh. apply cb_ext.
+  intros x. unfold sources_of. destruct (g_producer g x) eqn:Hp; [reflexivity|apply Hs; exact Hp].
+Qed.
+
+Lemma snapshot_eq (f : node -> option content) : forall (S : snapshot) l,
+  map fst S = l -> (forall i ci, In (i, ci) S -> ci = f i) -> S = map (fun i => (i, f i)) l.
+Proof.
+  induction S as [|[i ci] S IH]; intros l Hl Hall; cbn [map] in Hl; subst l; [reflexivity|].
+  cbn [map fst]. rewrite (Hall i ci (or_introl eq_refl)). f_equal.
+  apply IH; [reflexivity|]. intros j cj Hj. apply Hall. right; exact Hj.
+Qed.
+
+Lemma md_base st e o : In o (outs e) -> phony e = false ->
+  base_reason (G st) (W st) e o -> must_dirty (G st) (W st) o.
+Proof.
+  intros Ho Hph Hb. apply (md_self (G st) (W st) o e o (o_prod e o Ho) Hph Ho). left. exact Hb.
+Qed.
+
+Lemma md_time st e o h m i : (e < g_nedges g)%nat -> In o (outs e) -> phony e = false ->
+  h_blog st o = Some (h, m) -> In i (nonoo_ins g e) -> newer_than (G st) (W st) m i ->
+  must_dirty (G st) (W st) o.
+Proof.
+  intros He Ho Hph Hb Hi Hn. apply (md_self (G st) (W st) o e o (o_prod e o Ho) Hph Ho).
+  right. right. cbn [world_of w_blog]. rewrite Hb. exists i. split; [|exact Hn].
+  rewrite (spec_ins_AB st (W st) e He). exact Hi.
+Qed.
+
+(* scan_clean_correct: LogSound and "ScanDefs judges the outputs clean" give the contents of a
+   clean build, for the whole clean subtree at once (cleanliness is hereditary along the
+   non-order-only inputs, so "the inputs are up to date" is the induction hypothesis) *)
+Theorem scan_clean_correct st : Good cmd g st ->
+  forall e, (e < g_nedges g)%nat -> phony e = false ->
+  forall o, In o (outs e) -> ~ must_dirty (G st) (W st) o ->
+  exists m c, h_disk st o = Some (m, c) /\ clean_of cmd g st o = Some c.
+Proof.
+  intros [[A [B [C [D E]]]] L]. induction e as [e IH] using lt_wf_ind. intros He Hph o Ho Hc.
+  destruct (h_disk st o) as [[mo c]|] eqn:Hdo.
+  2:{ exfalso. apply Hc. apply (md_base st e o Ho Hph). left. cbn [world_of w_mtime]. unfold mtime_of. rewrite Hdo. reflexivity. }
+  destruct (h_blog st o) as [[h m]|] eqn:Hbo.
+  2:{ exfalso. apply (E o e (o_prod e o Ho) Hph); [rewrite Hdo; discriminate|exact Hbo]. }
+  destruct (L e o h m mo c Hph Ho Hbo Hdo) as [S [HS [HmS [HcS Hf]]]].
+  exists mo, c. split; [reflexivity|].
+  unfold clean_of. rewrite (clean_build_out (h_hash st) (sources_of g st) e o He (o_prod e o Ho)). rewrite Hph.
+  change (clean_build cmd g (h_hash st) (sources_of g st)) with (clean_of cmd g st).
+  assert (HSeq : S = map (fun i => (i, clean_of cmd g st i)) (nonoo_ins g e)).
+  { apply snapshot_eq; [exact HmS|]. intros i ci Hi.
+    assert (Hin : In i (nonoo_ins g e)) by (rewrite <- HmS; apply (in_map fst S (i, ci) Hi)).
+    destruct (Hf i ci Hi) as [F1 F2].
+    assert (Hci : ~ must_dirty (G st) (W st) i) by (apply (clean_input st (W st) o e i (o_prod e o Ho) Hin Hc)).
+    assert (Hfresh : forall mi c', h_disk st i = Some (mi, c') -> ci = Some c').
+    { intros mi c' Hdi. apply (F2 mi c' Hdi). destruct (Z_le_gt_dec mi m) as [Hle|Hgt]; [exact Hle|].
+      exfalso. apply Hc. apply (md_time st e o h m i He Ho Hph Hbo Hin).
+      apply nt_file; cbn [world_of w_mtime]; unfold mtime_of; rewrite Hdi; [|lia].
+      specialize (B i mi c' Hdi). lia. }
+    destruct (g_producer g i) as [e'|] eqn:Hpi.
+    - pose proof (in_below e i He (nonoo_in e i Hin)) as Hlt. unfold below in Hlt. rewrite Hpi in Hlt.
+      assert (He' : (e' < g_nedges g)%nat) by lia.
+      destruct (phony e') eqn:Hph'.
+      + rewrite (F1 e' eq_refl Hph'). unfold clean_of.
+        rewrite (clean_build_out _ _ e' i He' Hpi), Hph'. reflexivity.
+      + destruct (IH e' Hlt He' Hph' i (p_out i e' Hpi) Hci) as [mi [c' [Hdi Hcl]]].
+        rewrite Hcl. apply (Hfresh mi c' Hdi).
+    - rewrite (clean_of_leaf st i Hpi). unfold content_of.
+      destruct (h_disk st i) as [[mi c']|] eqn:Hdi; [apply (Hfresh mi c' eq_refl)|].
+      exfalso. apply Hci. apply md_leaf; [exact Hpi|]. cbn [world_of w_mtime]. unfold mtime_of. rewrite Hdi. reflexivity. }
+  rewrite <- HSeq. f_equal. rewrite HcS.
+  destruct (ei_generator (g_edge g e)) eqn:Hgn; [apply Hgen; exact Hgn|].
+  destruct (N.eq_dec h (h_hash st e)) as [->|Hne]; [reflexivity|].
+  exfalso. apply Hc. apply (md_base st e o Ho Hph). right. cbn [world_of w_blog]. rewrite Hbo.
+  split; [exact Hgn|exact Hne].
+Qed.
+
+Lemma mtime_le st n : StateOk g st -> 0 <= mtime_of st n <= h_clock st.
+Proof.
+  intros [A [B _]]. unfold mtime_of. destruct (h_disk st n) as [[m c]|] eqn:Hd; [|lia].
+  specialize (B n m c Hd). lia.
+Qed.
+
+Lemma want_start_iff p e : want_start p e = true <-> p_want p e = Some WantToStart.
+Proof. unfold want_start. destruct (p_want p e) as [[| |]|]; split; congruence. Qed.
+
+Lemma build_upto_S p k st :
+  build_upto cmd g p (S k) st = build_step cmd g p (build_upto cmd g p k st) k.
+Proof. unfold build_upto. rewrite seq_S, fold_left_app. reflexivity. Qed.
+
+(* ---- one accepted invocation *)
+Section Build.
+Variables (st0 : hstate) (T : list node) (s0 : sstate) (p0 : plan).
+Hypothesis HG0 : Good cmd g st0.
+Hypothesis Hscan : scan (G st0) (W st0) T = ScanOk s0 p0.
+
+Definition needed (e : edge) : Prop := exists n, reach g T n /\ g_producer g n = Some e.
+Notation MD0 := (must_dirty (G st0) (W st0)).
+Notation stk k := (build_upto cmd g p0 k st0).
+
+Lemma needed_G st e : neededE (G st) T e <-> needed e.
+Proof.
+  unfold neededE, needed. split; intros [n [Hr Hp]]; exists n; (split; [|exact Hp]).
+  - apply (reach_G st). exact Hr.
+  - apply (reach_G st). exact Hr.
+Qed.
+
+Lemma want_sound e : want_start p0 e = true -> needed e /\ exists o, In o (outs e) /\ MD0 o.
+Proof.
+  intros H. apply want_start_iff in H.
+  destruct (scan_want_sound (G st0) (W st0) (Gwf st0) (Gwg st0) (Gfrag st0) T s0 p0 Hscan e H) as [Hn Ho].
+  split; [apply (needed_G st0); exact Hn|exact Ho].
+Qed.
+
+Lemma want_complete e :
+  needed e -> (exists o, In o (outs e) /\ MD0 o) ->
+  ~ (phony e = true /\ ei_ins (g_edge g e) = []) ->
+  want_start p0 e = true /\
+  forall i, In i (ei_ins (g_edge g e)) -> g_producer g i = None -> mtime_of st0 i <> 0.
+Proof.
+  intros Hn Ho Hnp. apply (needed_G st0) in Hn.
+  destruct (scan_want_complete (G st0) (W st0) (Gwf st0) (Gwg st0) (Gfrag st0) T s0 p0 Hscan e Hn Ho Hnp)
+    as [Hw Hl].
+  split; [apply want_start_iff; exact Hw|exact Hl].
+Qed.
+
+(* only outputs of wanted real statements below [k] have changed *)
+Definition Frame (k : nat) (st : hstate) : Prop :=
+  forall n, (h_disk st n = h_disk st0 n /\ h_blog st n = h_blog st0 n /\ h_ghost st n = h_ghost st0 n) \/
+            (exists e, g_producer g n = Some e /\ (e < k)%nat /\ want_start p0 e = true /\ phony e = false).
+
+Lemma build_inv1 k : (k <= g_nedges g)%nat ->
+  Good cmd g (stk k) /\ h_hash (stk k) = h_hash st0 /\ Frame k (stk k).
+Proof.
+  induction k as [|k IH]; intros Hk.
+  - split; [exact HG0|]. split; [reflexivity|]. intros n. left. repeat split; reflexivity.
+  - destruct IH as [HGk [Hh Hf]]; [lia|]. rewrite build_upto_S. set (st := stk k) in *.
+    unfold build_step.
+    destruct (want_start p0 k && negb (phony k) && dirty_now g st k)%bool eqn:Hc.
+    + apply andb_true_iff in Hc. destruct Hc as [Hc _]. apply andb_true_iff in Hc. destruct Hc as [Hw Hph].
+      apply negb_true_iff in Hph.
+      destruct HGk as [[A [B C]] L].
+      destruct (run_edge_spec st k A B) as [Hh' [_ [Hout _]]]. cbn zeta in *.
+      split; [apply good_run; [split; [split; [exact A|split; [exact B|exact C]]|exact L]|lia|exact Hph]|].
+      split; [congruence|].
+      intros n. destruct (in_dec Nat.eq_dec n (outs k)) as [Hin|Hnin].
+      * right. exists k. split; [apply o_prod; exact Hin|]. split; [lia|]. split; assumption.
+      * destruct (Hout n Hnin) as [E1 [E2 E3]]. rewrite E1, E2, E3.
+        destruct (Hf n) as [Hs|[e [He [Hlt Hr]]]]; [left; exact Hs|].
+        right. exists e. split; [exact He|]. split; [lia|exact Hr].
+    + split; [exact HGk|]. split; [exact Hh|].
+      intros n. destruct (Hf n) as [Hs|[e [He [Hlt Hr]]]]; [left; exact Hs|].
+      right. exists e. split; [exact He|]. split; [lia|exact Hr].
+Qed.
+
+Lemma frame_leaf k st n : Frame k st -> g_producer g n = None -> h_disk st n = h_disk st0 n.
+Proof. intros Hf Hp. destruct (Hf n) as [[E _]|[e [He _]]]; [exact E|congruence]. Qed.
+
+Lemma frame_later k st n e : Frame k st -> g_producer g n = Some e -> (k <= e)%nat ->
+  h_disk st n = h_disk st0 n /\ h_blog st n = h_blog st0 n.
+Proof.
+  intros Hf Hp Hk. destruct (Hf n) as [[E1 [E2 _]]|[e' [He' [Hlt _]]]]; [split; assumption|].
+  rewrite Hp in He'. inversion He'; subst. lia.
+Qed.
+
+Lemma frame_clean k st : Frame k st -> agree_clean st0 (W st0) (W st).
+Proof.
+  intros Hf n Hc. cbn [world_of w_mtime w_blog]. unfold mtime_of.
+  destruct (Hf n) as [[E1 [E2 _]]|[e [He [_ [Hw _]]]]]; [rewrite E1, E2; split; reflexivity|].
+  exfalso. apply Hc. destruct (want_sound e Hw) as [_ [o [Ho Hmd]]].
+  apply (must_dirty_same_prod (G st0) (W st0) o n e (o_prod e o Ho) He Hmd).
+Qed.
+
+(* the statement [k] is either run (wanted, real, dirty now) or the state stays *)
+Lemma step_cases k :
+  (stk (S k) = run_edge cmd g (stk k) k /\ want_start p0 k = true /\ phony k = false) \/
+  (stk (S k) = stk k /\
+   (phony k = true \/ want_start p0 k = false \/ dirty_now g (stk k) k = false)).
+Proof.
+  rewrite build_upto_S. unfold build_step.
+  destruct (want_start p0 k); [|right; split; [reflexivity|right; left; reflexivity]].
+  destruct (phony k); [right; split; [reflexivity|left; reflexivity]|].
+  destruct (dirty_now g (stk k) k); [left; repeat split; reflexivity|].
+  right; split; [reflexivity|right; right; reflexivity].
+Qed.
+
+(* C01, the loop invariant: the needed real statements below [k] have the clean contents *)
+Lemma build_inv_c01 k : (k <= g_nedges g)%nat ->
+  forall e, (e < k)%nat -> needed e -> phony e = false ->
+  forall o, In o (outs e) ->
+    exists m c, h_disk (stk k) o = Some (m, c) /\ clean_of cmd g st0 o = Some c.
+Proof.
+  induction k as [|k IH]; intros Hk e He Hn Hph o Ho; [lia|].
+  destruct (build_inv1 k) as [HGk [Hh Hf]]; [lia|].
+  assert (IHk : forall e', (e' < k)%nat -> needed e' -> phony e' = false ->
+            forall o', In o' (outs e') ->
+            exists m c, h_disk (stk k) o' = Some (m, c) /\ clean_of cmd g st0 o' = Some c)
+    by (apply IH; lia).
+  set (st := stk k) in *.
+  destruct (Nat.eq_dec e k) as [->|Hne].
+  2:{ (* an earlier statement: its outputs are not touched by [k] *)
+      destruct (IHk e ltac:(lia) Hn Hph o Ho) as [m [c [Hd Hcl]]].
+      destruct (step_cases k) as [[Hs _]|[Hs _]]; rewrite Hs; fold st; [|exists m, c; split; assumption].
+      destruct HGk as [[A [B _]] _].
+      destruct (run_edge_spec st k A B) as [_ [_ [Hout _]]]. cbn zeta in Hout.
+      assert (Hnin : ~ In o (outs k)).
+      { intros Hin. pose proof (o_prod k o Hin) as H1. rewrite (o_prod e o Ho) in H1. congruence. }
+      exists m, c. rewrite (proj1 (Hout o Hnin)). split; assumption. }
+  assert (Hcl : clean_of cmd g st0 o =
+                Some (cmd k (h_hash st0 k) (map (fun i => (i, clean_of cmd g st0 i)) (nonoo_ins g k)) o)).
+  { unfold clean_of. rewrite (clean_build_out _ _ k o Hk (o_prod k o Ho)), Hph. reflexivity. }
+  destruct (step_cases k) as [[Hs [Hw _]]|[Hs Hskip]]; rewrite Hs; fold st.
+  - (* the command runs: it reads clean contents *)
+    destruct HGk as [[A [B [C [D E]]]] L].
+    destruct (run_edge_spec st k A B) as [_ [_ [_ [_ [_ [[m [_ Hlog]] _]]]]]]. cbn zeta in Hlog.
+    destruct (Hlog o Ho) as [_ [_ [mo Hd]]]. exists mo. eexists. split; [exact Hd|].
+    rewrite Hcl, Hh. f_equal. f_equal. unfold reads. apply map_ext_in. intros i Hi. f_equal.
+    destruct Hn as [n [Rn Hpn]].
+    destruct (g_producer g i) as [e'|] eqn:Hpi.
+    + pose proof (in_below k i Hk (nonoo_in k i Hi)) as Hlt. unfold below in Hlt. rewrite Hpi in Hlt.
+      destruct (phony e') eqn:Hph'.
+      * unfold content_of. rewrite (D i e' Hpi Hph'). unfold clean_of.
+        rewrite (clean_build_out _ _ e' i ltac:(lia) Hpi), Hph'. reflexivity.
+      * assert (Hn' : needed e').
+        { exists i. split; [|exact Hpi]. apply (reach_step g (manifest_ins g) T n i Rn).
+          exists k. split; [exact Hpn|apply nonoo_in; exact Hi]. }
+        destruct (IHk e' Hlt Hn' Hph' i (p_out i e' Hpi)) as [mi [ci [Hdi Hci]]].
+        unfold content_of. rewrite Hdi, Hci. reflexivity.
+    + rewrite (clean_of_leaf st0 i Hpi). unfold content_of. rewrite (frame_leaf k st i Hf Hpi). reflexivity.
+  - destruct Hskip as [Hp|[Hw|Hdn]]; [congruence| |].
+    + (* not wanted: clean at scan time, and untouched since *)
+      assert (Hc0 : ~ MD0 o).
+      { intros Hmd. destruct (want_complete k Hn (ex_intro _ o (conj Ho Hmd))) as [Hw' _]; [|congruence].
+        intros [Hp _]. congruence. }
+      destruct (scan_clean_correct st0 HG0 k Hk Hph o Ho Hc0) as [m [c [Hd Hc]]].
+      exists m, c. split; [|exact Hc].
+      rewrite (proj1 (frame_later k st o k Hf (o_prod k o Ho) (le_n k))). exact Hd.
+    + (* wanted, but clean when its turn came *)
+      pose proof (dirty_now_spec st k Hdn o Ho) as Hc.
+      destruct (scan_clean_correct st HGk k Hk Hph o Ho Hc) as [m [c [Hd Hcc]]].
+      exists m, c. split; [exact Hd|]. rewrite <- Hcc. symmetry. apply clean_of_ext; [exact Hh|].
+      intros x Hx. unfold content_of. rewrite (frame_leaf k st x Hf Hx). reflexivity.
+Qed.
+
+(* C02, the loop invariant: nothing the needed statements below [k] produce must be remade *)
+Lemma nip_edge e : no_inputless_phony g = true -> (e < g_nedges g)%nat ->
+  ~ (phony e = true /\ ei_ins (g_edge g e) = []).
+Proof.
+  intros Hn He [Hp Hi]. pose proof (edges_all_spec g _ e Hn He) as H. cbn beta in H.
+  rewrite Hp, Hi in H. discriminate.
+Qed.
+
+Lemma build_inv_c02 k : no_inputless_phony g = true -> (k <= g_nedges g)%nat ->
+  forall e, (e < k)%nat -> needed e ->
+  forall o, In o (outs e) -> ~ must_dirty (G st0) (W (stk k)) o.
+Proof.
+  intros Hnip. induction k as [|k IH]; intros Hk e He Hn o Ho; [lia|].
+  destruct (build_inv1 k) as [HGk [Hh Hf]]; [lia|].
+  assert (IHk : forall e', (e' < k)%nat -> needed e' ->
+            forall o', In o' (outs e') -> ~ must_dirty (G st0) (W (stk k)) o') by (apply IH; lia).
+  set (st := stk k) in *.
+  assert (HGeq : G st = G st0) by (apply G_hash_eq; exact Hh).
+  (* the non-order-only inputs of [k] are clean now *)
+  assert (Hins : needed k -> forall i, In i (nonoo_ins g k) -> ~ must_dirty (G st0) (W st) i).
+  { intros [n [Rn Hpn]] i Hi Hmd. destruct (g_producer g i) as [e'|] eqn:Hpi.
+    - pose proof (in_below k i Hk (nonoo_in k i Hi)) as Hlt. unfold below in Hlt. rewrite Hpi in Hlt.
+      assert (Hn' : needed e').
+      { exists i. split; [|exact Hpi]. apply (reach_step g (manifest_ins g) T n i Rn).
+        exists k. split; [exact Hpn|apply nonoo_in; exact Hi]. }
+      apply (IHk e' Hlt Hn' i (p_out i e' Hpi) Hmd).
+    - pose proof (must_dirty_leaf_inv (G st0) (W st) i Hmd Hpi) as Hz.
+      cbn [world_of w_mtime] in Hz. unfold mtime_of in Hz. rewrite (frame_leaf k st i Hf Hpi) in Hz.
+      assert (Hmd0 : MD0 n).
+      { apply (md_input (G st0) (W st0) n k i Hpn).
+        - rewrite (spec_ins_AB st0 (W st0) k Hk). exact Hi.
+        - apply md_leaf; [exact Hpi|exact Hz]. }
+      destruct (want_complete k (ex_intro _ n (conj Rn Hpn)) (ex_intro _ n (conj (p_out n k Hpn) Hmd0)))
+        as [_ Hl].
+      + intros [_ Hnil]. pose proof (nonoo_in k i Hi) as Hin. rewrite Hnil in Hin. destruct Hin.
+      + apply (Hl i (nonoo_in k i Hi) Hpi). unfold mtime_of. exact Hz. }
+  destruct (step_cases k) as [[Hs [Hw Hph]]|[Hs Hskip]]; rewrite Hs; fold st.
+  - (* the command of [k] runs *)
+    destruct HGk as [[A [B [C [D E]]]] L].
+    destruct (run_edge_spec st k A B) as [Hh' [Hc' [Hout [_ [Hd' [[m [Hm Hlog]] Hnr]]]]]]. cbn zeta in *.
+    set (st' := run_edge cmd g st k) in *.
+    assert (Hag : agree_below k (W st') (W st)).
+    { intros n Hb. pose proof (not_out_of_below k k n Hb (le_n k)) as Hnin.
+      destruct (Hout n Hnin) as [E1 [E2 _]]. cbn [world_of w_mtime w_blog]. unfold mtime_of.
+      rewrite E1, E2. split; reflexivity. }
+    destruct (Nat.eq_dec e k) as [->|Hne].
+    2:{ intros Hmd. apply (IHk e ltac:(lia) Hn o Ho).
+        apply (md_below st0 k (W st') (W st) ltac:(lia) Hag o Hmd).
+        unfold below. rewrite (o_prod e o Ho). lia. }
+    intros Hmd.
+    destruct (must_dirty_out_inv (G st0) (W st') o k Hmd (o_prod k o Ho))
+      as [[i [Hi Hdi]]|[[Hp _]|[[_ [o' [Ho' Hr]]]|Hl]]].
+    + rewrite (spec_ins_AB st0 (W st') k Hk) in Hi. apply (Hins Hn i Hi).
+      apply (md_below st0 k (W st') (W st) ltac:(lia) Hag i Hdi).
+      apply (in_below k i Hk (nonoo_in k i Hi)).
+    + change (phony k = true) in Hp. congruence.
+    + change (In o' (outs k)) in Ho'.
+      destruct (Hlog o' Ho') as [Hb' [_ [mo Hdo]]].
+      assert (HN : forall x, (exists i, In i (spec_ins (G st0) (W st') k) /\ newer_than (G st0) (W st') x i) ->
+                             x < h_clock st).
+      { intros x [i [Hi Hnt]]. rewrite (spec_ins_AB st0 (W st') k Hk) in Hi.
+        apply (newer_bound st0 k (W st') (h_clock st) ltac:(lia) A) with (n := i); [|exact Hnt|].
+        - intros n Hb. destruct (Hag n Hb) as [E1 _]. cbn [world_of w_mtime] in *. rewrite <- E1.
+          apply (mtime_le st n). split; [exact A|split; [exact B|split; [exact C|split; [exact D|exact E]]]].
+        - apply (in_below k i Hk (nonoo_in k i Hi)). }
+      unfold out_reason, base_reason, time_reason, used_restat in Hr.
+      cbn [world_of w_mtime w_blog] in Hr. unfold mtime_of in Hr. rewrite Hdo, Hb' in Hr.
+      destruct (Hd' o' mo _ Hdo) as [Hmo _].
+      destruct Hr as [[Hz|[_ Hneq]]|[[Hu Hx]|Hx]].
+      * lia.
+      * apply Hneq. cbn [graph_of g_edge set_hash ei_hash]. rewrite Hh. reflexivity.
+      * change (ei_restat (g_edge (G st0) k)) with (ei_restat (g_edge g k)) in Hu.
+        rewrite andb_true_r in Hu. destruct (Hnr Hu o' Ho') as [mo' [Hdo' Hlt]].
+        rewrite Hdo in Hdo'. inversion Hdo'; subst mo'. specialize (HN mo Hx). lia.
+      * specialize (HN m Hx). lia.
+    + unfold spec_load in Hl. change (ei_deps (g_edge (G st0) k)) with (ei_deps (g_edge g k)) in Hl.
+      rewrite (edge_frag k Hk) in Hl. discriminate.
+  - (* the state stays *)
+    destruct (Nat.eq_dec e k) as [->|Hne]; [|apply (IHk e ltac:(lia) Hn o Ho)].
+    destruct (phony k) eqn:Hph.
+    + intros Hmd.
+      destruct (must_dirty_out_inv (G st0) (W st) o k Hmd (o_prod k o Ho))
+        as [[i [Hi Hdi]]|[[_ [Hnil _]]|[[Hp _]|Hl]]].
+      * rewrite (spec_ins_AB st0 (W st) k Hk) in Hi. apply (Hins Hn i Hi Hdi).
+      * apply (nip_edge k Hnip Hk). split; [exact Hph|exact Hnil].
+      * change (phony k = false) in Hp. congruence.
+      * unfold spec_load in Hl. change (ei_deps (g_edge (G st0) k)) with (ei_deps (g_edge g k)) in Hl.
+        rewrite (edge_frag k Hk) in Hl. discriminate.
+    + destruct Hskip as [Hp|[Hw|Hdn]]; [congruence| |].
+      * assert (Hc0 : ~ MD0 o).
+        { intros Hmd. destruct (want_complete k Hn (ex_intro _ o (conj Ho Hmd))) as [Hw' _]; [|congruence].
+          intros [Hp _]. congruence. }
+        intros Hmd. apply (clean_stable st0 (W st0) (W st) (frame_clean k st Hf) o Hmd Hc0).
+      * rewrite <- HGeq. apply (dirty_now_spec st k Hdn o Ho).
+Qed.
+
+End Build.
+
+(* ---- the theorems about one build *)
+Theorem logsound_build st T st' :
+  Good cmd g st -> build cmd g st T = Some st' -> Good cmd g st'.
+Proof.
+  intros HG H. unfold build in H.
+  destruct (scan (G st) (W st) T) as [c|m d|e| |s p] eqn:Hs; try discriminate. inversion H; subst st'.
+  apply (build_inv1 st p HG (g_nedges g) (le_n _)).
+Qed.
+
+(* what a build leaves alone: sources and command lines *)
+Lemma build_sources st T st' :
+  Good cmd g st -> build cmd g st T = Some st' ->
+  h_hash st' = h_hash st /\ forall n, g_producer g n = None -> h_disk st' n = h_disk st n.
+Proof.
+  intros HG H. unfold build in H.
+  destruct (scan (G st) (W st) T) as [c|m d|e| |s p] eqn:Hs; try discriminate. inversion H; subst st'.
+  destruct (build_inv1 st p HG (g_nedges g) (le_n _)) as [_ [Hh Hf]].
+  split; [exact Hh|]. intros n Hp. apply (frame_leaf st p _ _ n Hf Hp).
+Qed.
+
+(* C01 for one invocation: after a successful build from a LogSound state, every node the targets
+   need -- through inputs of every kind -- holds exactly what a from-scratch build of the current
+   sources and command lines produces (a source: itself; a phony output: no file) *)
+Theorem C01_build_equals_clean st T st' :
+  Good cmd g st -> build cmd g st T = Some st' ->
+  forall n, reach g T n -> content_of st' n = clean_of cmd g st' n.
+Proof.
+  intros HG H n Rn. destruct (build_sources st T st' HG H) as [Hh Hsrc].
+  pose proof (logsound_build st T st' HG H) as HG'.
+  unfold build in H.
+  destruct (scan (G st) (W st) T) as [c|m d|e| |s p] eqn:Hs; try discriminate. inversion H; subst st'.
+  set (st' := build_upto cmd g p (g_nedges g) st) in *.
+  destruct (g_producer g n) as [e|] eqn:Hp; [|symmetry; apply clean_of_leaf; exact Hp].
+  pose proof (Hwg n e Hp) as He.
+  rewrite (clean_of_ext st st' Hh) by (intros x Hx; unfold content_of; rewrite (Hsrc x Hx); reflexivity).
+  destruct (phony e) eqn:Hph.
+  - destruct HG' as [[_ [_ [_ [D _]]]] _]. unfold content_of. rewrite (D n e Hp Hph).
+    unfold clean_of. rewrite (clean_build_out _ _ e n He Hp), Hph. reflexivity.
+  - destruct (build_inv_c01 st T s p HG Hs (g_nedges g) (le_n _) e He (ex_intro _ n (conj Rn Hp)) Hph n (p_out n e Hp))
+      as [m [c [Hd Hc]]].
+    unfold content_of. unfold st'. rewrite Hd, Hc. reflexivity.
+Qed.
+
+(* a plan that wants nothing runs nothing *)
+Lemma build_upto_idle p st : (forall e, p_want p e <> Some WantToStart) ->
+  forall k, build_upto cmd g p k st = st.
+Proof.
+  intros Hp. induction k as [|k IH]; [reflexivity|]. rewrite build_upto_S, IH. unfold build_step.
+  assert (Hw : want_start p k = false).
+  { destruct (want_start p k) eqn:E; [|reflexivity]. apply want_start_iff in E. destruct (Hp k E). }
+  rewrite Hw. reflexivity.
+Qed.
+
+(* C02 for one invocation: immediately after a successful build, ScanDefs' scan of the same
+   targets marks no statement kWantToStart (the documented always-dirty case excluded) *)
+Theorem C02_wants_nothing st T st' :
+  Good cmd g st -> no_inputless_phony g = true -> build cmd g st T = Some st' ->
+  forall s p, scan (G st') (W st') T = ScanOk s p -> forall e, p_want p e <> Some WantToStart.
+Proof.
+  intros HG Hnip H s2 p2 Hs2 e Hw. destruct (build_sources st T st' HG H) as [Hh _].
+  unfold build in H.
+  destruct (scan (G st) (W st) T) as [c|m d|e'| |s p] eqn:Hs; try discriminate. inversion H; subst st'.
+  set (st' := build_upto cmd g p (g_nedges g) st) in *.
+  destruct (scan_want_sound (G st') (W st') (Gwf st') (Gwg st') (Gfrag st') T s2 p2 Hs2 e Hw)
+    as [Hn [o [Ho Hmd]]].
+  apply (needed_G T st') in Hn. rewrite (G_hash_eq st st' Hh) in Hmd.
+  assert (He : (e < g_nedges g)%nat) by (destruct Hn as [n [_ Hp]]; apply (Hwg n e Hp)).
+  apply (build_inv_c02 st T s p HG Hs (g_nedges g) Hnip (le_n _) e He Hn o Ho Hmd).
+Qed.
+
+(* ... and that scan IS accepted (no cycle, no missing source, no load error, enough fuel) *)
+Theorem C02_accepts st T st' :
+  Good cmd g st -> no_inputless_phony g = true -> build cmd g st T = Some st' ->
+  exists s p, scan (G st') (W st') T = ScanOk s p.
+Proof.
+  intros HG Hnip H. destruct (build_sources st T st' HG H) as [Hh Hsrc].
+  unfold build in H.
+  destruct (scan (G st) (W st) T) as [c|m d|e'| |s p] eqn:Hs; try discriminate. inversion H; subst st'.
+  set (st' := build_upto cmd g p (g_nedges g) st) in *.
+  apply (scan_accepts (G st') (W st') (Gwf st') (Gwg st') (Gfrag st') T Htopo).
+  - intros t Ht Hp.
+    destruct (scan_leaf_targets (G st) (W st) (Gwf st) (Gwg st) (Gfrag st) T s p Hs t Ht Hp) as [Hnz|Hb];
+      [left|right; exact Hb].
+    cbn [world_of w_mtime] in *. unfold mtime_of in *. rewrite (Hsrc t Hp). exact Hnz.
+  - intros e Hn o Ho Hmd. apply (needed_G T st') in Hn. rewrite (G_hash_eq st st' Hh) in Hmd.
+    assert (He : (e < g_nedges g)%nat) by (destruct Hn as [n [_ Hp]]; apply (Hwg n e Hp)).
+    apply (build_inv_c02 st T s p HG Hs (g_nedges g) Hnip (le_n _) e He Hn o Ho Hmd).
+Qed.
+
+(* C02 for one invocation *)
+Theorem C02_converges st T st' :
+  Good cmd g st -> no_inputless_phony g = true -> build cmd g st T = Some st' ->
+  exists s p, scan (G st') (W st') T = ScanOk s p /\ forall e, p_want p e <> Some WantToStart.
+Proof.
+  intros HG Hnip H. destruct (C02_accepts st T st' HG Hnip H) as [s [p Hs]].
+  exists s, p. split; [exact Hs|]. apply (C02_wants_nothing st T st' HG Hnip H s p Hs).
+Qed.
+
+(* ... hence running ninja again succeeds, executes no command and changes nothing *)
+Theorem C02_second_build_idle st T st' :
+  Good cmd g st -> no_inputless_phony g = true -> build cmd g st T = Some st' ->
+  build cmd g st' T = Some st'.
+Proof.
+  intros HG Hnip H. destruct (C02_converges st T st' HG Hnip H) as [s [p [Hs Hc]]].
+  unfold build. rewrite Hs. f_equal. apply build_upto_idle. exact Hc.
+Qed.
+
+(* ---- histories *)
+Theorem good_init : Good cmd g (init_hstate g).
+Proof. split; [apply stateok_init|apply logsound_init]. Qed.
+
+Theorem good_step st x : Good cmd g st -> step_ok g x = true -> Good cmd g (apply_step cmd g st x).
+Proof.
+  intros HG Hok. destruct x as [n c|n|e h|T]; cbn [apply_step step_ok] in *.
+  - split; [apply stateok_edit; [exact (proj1 HG)|exact Hok]|apply logsound_edit; assumption].
+  - split; [apply stateok_delete; exact (proj1 HG)|apply logsound_delete; exact HG].
+  - split; [apply stateok_setcmd; exact (proj1 HG)|apply logsound_setcmd; exact HG].
+  - destruct (build cmd g st T) as [st'|] eqn:Hb; [|exact HG]. apply (logsound_build st T st' HG Hb).
+Qed.
+
+Theorem good_hist : forall h st, Good cmd g st -> hist_ok g h = true -> Good cmd g (run_hist cmd g st h).
+Proof.
+  induction h as [|x h IH]; intros st HG Hok; [exact HG|].
+  cbn [hist_ok forallb] in Hok. apply andb_true_iff in Hok. destruct Hok as [Hx Hh].
+  change (run_hist cmd g st (x :: h)) with (run_hist cmd g (apply_step cmd g st x) h).
+  apply IH; [apply good_step; assumption|exact Hh].
+Qed.
+
+(* C01 over histories: after ANY history of source edits, deletions, command-line changes and
+   builds from the empty tree, a successful build leaves the clean-build contents *)
+Theorem C01_history h T st' :
+  hist_ok g h = true ->
+  build cmd g (run_hist cmd g (init_hstate g) h) T = Some st' ->
+  forall n, reach g T n -> content_of st' n = clean_of cmd g st' n.
+Proof.
+  intros Hok Hb. apply (C01_build_equals_clean _ T st' (good_hist h _ good_init Hok) Hb).
+Qed.
+
+(* C02 over histories *)
+Theorem C02_history h T st' :
+  hist_ok g h = true -> no_inputless_phony g = true ->
+  build cmd g (run_hist cmd g (init_hstate g) h) T = Some st' ->
+  (exists s p, scan (G st') (W st') T = ScanOk s p /\ forall e, p_want p e <> Some WantToStart) /\
+  build cmd g st' T = Some st'.
+Proof.
+  intros Hok Hnip Hb. pose proof (good_hist h _ good_init Hok) as HG. split.
+  - apply (C02_converges _ T st' HG Hnip Hb).
+  - apply (C02_second_build_idle _ T st' HG Hnip Hb).
 Qed.
 
 End Hist.
